@@ -298,11 +298,15 @@ class Run(RunBase):
                     "to": rng.randrange(MAXOBJ)}
         if x < 0.78:
             return {"op": "copy", "obj": k, "to": rng.randrange(MAXOBJ)}
-        if x < 0.95:
+        if x < 0.93:
             dst = rng.choice(["self", "fresh", "fresh", rng.randrange(nobj)])
             return {"op": "poscar", "src": k, "dst": dst, "empty": rng.random() < 0.7,
                     "dialect": rng.choice(DIALECTS), "k": rng.randrange(1 << 30),
-                    "named": rng.random() < 0.5}
+                    "named": rng.random() < 0.5, "stoich": rng.random() < 0.7,
+                    "thresholds": rng.choice(("default", "default", "disp", "latt", "both"))}
+        if x < 0.96:
+            return {"op": "read", "obj": k, "i": rng.randrange(self.nsites), "how": rng.choice(("item", "pos", "slice", "index", "occpos")),
+                    "shift": [rng.choice((-1, 0, 1)) for _ in range(3)]}
         c = rng.randrange(self.ncrys, self.nchem) if (self.nchem > self.ncrys and rng.random() < 0.8) \
             else rng.randrange(-1, self.nchem + 2)
         return {"op": "definesolute", "obj": k, "c": c, "name": rng.choice(["X", "Y", "Zr", "X"])}
@@ -349,6 +353,29 @@ class Run(RunBase):
             return "ok"
         what = "species" if valid_i else "index"
         return self.expect_reject(k, call, (IndexError,), what)
+
+    def op_read(self, op):
+        """Read accessors must report what the model holds (and change nothing)."""
+        k = op["obj"] % len(self.objs)
+        sup, m = self.objs[k], self.models[k]
+        i = op["i"] % self.nsites
+        how = op["how"]
+        self.checks += 1
+        if how == "item":
+            got, want = int(sup[i]), m.occ[i]
+        elif how == "pos":
+            pos = sup.pos[i] + np.array(op.get("shift", [0, 0, 0]), dtype=float)
+            got, want = int(sup[pos]), m.occ[i]
+        elif how == "slice":
+            got, want = [int(x) for x in sup[i:i + 3]], m.occ[i:i + 3]
+        elif how == "index":
+            got, want = sup.index(sup.pos[i] + np.array(op.get("shift", [0, 0, 0]), dtype=float)), i
+        else:
+            got = [[tuple(np.round(u, 12)) for u in l] for l in sup.occposlist()]
+            want = [[tuple(np.round(sup.pos[j], 12)) for j in l] for l in m.order]
+        if got != want:
+            self.fail("read-model", "{} read of site {} gives {} but the model says {}".format(how, i, got, want))
+        return "read"
 
     def op_fill(self, op):
         k = op["obj"] % len(self.objs)
@@ -464,7 +491,10 @@ class Run(RunBase):
         s = op["src"] % len(self.objs)
         src, ms = self.objs[s], self.models[s]
         title = "cell{}".format(op["k"] % 97) if op.get("named") else None
-        text = src.POSCAR(title) if title is not None else src.POSCAR()
+        kw = {} if op.get("stoich", True) else {"stoichiometry": False}
+        text = src.POSCAR(title, **kw) if title is not None else src.POSCAR(**kw)
+        if not op.get("stoich", True):
+            self.probes["poscar-without-stoichiometry"] += 1
         # the text must say what the model says (peer-side parse; independent of POSCAR_occ)
         name, a0, latt, counts, mode, coords = parse_poscar(text)
         self.checks += 1
@@ -498,7 +528,15 @@ class Run(RunBase):
             text2, used = text, "plain"
         if not empty and any(c != -1 for c in mt.occ):
             self.faults["overlay-read"] += 1
-        got = tgt.POSCAR_occ(text2, EMPTY_SUPER=empty)
+        okw = {}
+        th = op.get("thresholds", "default")
+        if th in ("disp", "both"):
+            okw["disp_threshold"] = 0.04      # compared with a squared distance: sites are >= 0.1 apart, jitter <= 2e-4
+        if th in ("latt", "both"):
+            okw["latt_threshold"] = 0.01      # the lattice in the file is the supercell's own: must be accepted
+        if okw:
+            self.probes["poscar-explicit-thresholds"] += 1
+        got = tgt.POSCAR_occ(text2, EMPTY_SUPER=empty, **okw)
         if got != name:
             self.fail("poscar-name", "POSCAR_occ returned {!r}, first line is {!r}".format(got, name))
         # model: optional emptying, then setocc in file order
